@@ -102,7 +102,7 @@ def run(ctx):
     for g, bb, t in facts.all_calls(lambda t: call_is(t, RECV, "std::sync::mpsc::Receiver::<T>::recv_timeout") or call_matches(t, r"std::sync::mpsc::(Iter|IntoIter)<.*> as std::iter::Iterator>::next$")):
         n += 1
         where = g.id
-        ok = g.file == seq_file and (g.rec.get("impl_self_adt") or "").startswith(SW.rsplit("::", 1)[0])
+        ok = g.file == seq_file       # (a method of the turn-taking types, a provided method of a private trait of that module, a helper there)
         dead = None
         if not ok:
             # the HTTPS-only wait of the connection task
